@@ -416,33 +416,29 @@ Proof.
       repeat split; [now rewrite E at 1 | | easy]. intros [->|Hin]; easy.
 Qed.
 
-(* the tokens the two variants are expected to produce *)
-Definition toks (include_empty : bool) (d : ascii) (s : str) : vec :=
-  if include_empty then strip_last_empty (fields d s) else filter nonempty (fields d s).
+(* the tokens the two variants are expected to produce: all the fields, or the
+   non-empty ones; the empty string has no token at all *)
+Definition toks' (include_empty : bool) (d : ascii) (s : list ascii) : list (list ascii) :=
+  if include_empty then fields d s else filter nonempty (fields d s).
+Definition toks (include_empty : bool) (d : ascii) (s : list ascii) : list (list ascii) :=
+  match s with [] => [] | _ :: _ => toks' include_empty d s end.
 (* [l] appended to an argv that may still be NULL *)
-Definition app_argv (a : argv) (l : vec) : argv :=
+Definition app_argv (a : option (list (list ascii))) (l : list (list ascii)) : option (list (list ascii)) :=
   match l with [] => a | _ => Some (vec_of a ++ l) end.
 Lemma app_argv_cons : forall a x l, app_argv (Some (vec_of a ++ [x])) l = app_argv a (x :: l).
 Proof. intros a x [|y l]; cbn [app_argv vec_of]; [easy|]. now rewrite <- app_assoc. Qed.
 
-Lemma toks_nil : forall ie d, toks ie d [] = [].
-Proof. now intros [|] d. Qed.
-Lemma toks_delim : forall ie d p, toks ie d (d :: p) = (if ie then [[]] else []) ++ toks ie d p.
+Lemma toks'_delim : forall ie d p, toks' ie d (d :: p) = (if ie then [[]] else []) ++ toks' ie d p.
+Proof. intros ie d p; unfold toks'; cbn [fields]. rewrite Ascii.eqb_refl. now destruct ie. Qed.
+Lemma toks'_tok_delim : forall ie d t p, t <> [] -> ~ In d t ->
+  toks' ie d (t ++ d :: p) = t :: toks' ie d p.
 Proof.
-  intros ie d p; unfold toks; cbn [fields]. rewrite Ascii.eqb_refl.
-  destruct ie; [|easy]. rewrite strip_cons by apply fields_nonnil. easy.
+  intros ie d t p Hne Hn; unfold toks'. rewrite fields_app_delim by easy.
+  destruct ie; [easy|]. cbn [filter]. now destruct t.
 Qed.
-Lemma toks_tok_delim : forall ie d t p, t <> [] -> ~ In d t ->
-  toks ie d (t ++ d :: p) = t :: toks ie d p.
+Lemma toks'_tok_end : forall ie d t, t <> [] -> ~ In d t -> toks' ie d t = [t].
 Proof.
-  intros ie d t p Hne Hn; unfold toks. rewrite fields_app_delim by easy.
-  destruct ie.
-  - now rewrite strip_cons by apply fields_nonnil.
-  - cbn [filter]. now destruct t.
-Qed.
-Lemma toks_tok_end : forall ie d t, t <> [] -> ~ In d t -> toks ie d t = [t].
-Proof.
-  intros ie d t Hne Hn; unfold toks. rewrite fields_nodelim by easy.
+  intros ie d t Hne Hn; unfold toks'. rewrite fields_nodelim by easy.
   destruct ie; cbn; now destruct t.
 Qed.
 
@@ -450,22 +446,29 @@ Lemma split_loop_spec : forall fuel ie d s a,
   length s < fuel -> split_loop fuel ie d s a = app_argv a (toks ie d s).
 Proof.
   induction fuel as [|f IH]; intros ie d s a Hf; [lia|].
-  cbn [split_loop]. destruct s as [|c s']; [now rewrite toks_nil|].
-  remember (c :: s') as s eqn:Es.
+  cbn [split_loop]. destruct s as [|c s']; [easy|].
+  (* what happens after "src_string = p + 1" *)
+  assert (Hrest : forall p1 a1, length p1 < f ->
+            split_loop f ie d p1 (trailing ie p1 a1) = app_argv a1 (toks' ie d p1)).
+  { intros p1 a1 Hp. rewrite IH by easy. destruct p1 as [|c1 p1]; [|now destruct ie].
+    destruct ie; cbn [trailing toks toks' fields filter nonempty app_argv]; [|easy].
+    now rewrite append_vec. }
+  unfold toks. remember (c :: s') as s eqn:Es.
   destruct (scan d s) as [tok p] eqn:Hs.
   destruct (scan_spec _ _ _ _ Hs) as (E & Hn & Hp).
   destruct tok as [|t0 tok].
   - (* zero-length argument *)
     cbn [app] in E. destruct Hp as [->|[p1 ->]]; [congruence|]. cbn [tl].
-    rewrite IH by (rewrite E in Hf; cbn in Hf; lia).
-    rewrite E, toks_delim. destruct ie; cbn [app]; [|easy].
+    rewrite Hrest by (rewrite E in Hf; cbn in Hf; lia).
+    rewrite E, toks'_delim. destruct ie; cbn [app]; [|easy].
     rewrite append_vec; cbn [snd]. apply app_argv_cons.
   - destruct Hp as [->|[p1 ->]].
     + (* tail argument *)
-      rewrite app_nil_r in E. rewrite IH by (rewrite Es in Hf; cbn in Hf |- *; lia). rewrite toks_nil. cbn [app_argv].
-      rewrite append_vec; cbn [snd]. rewrite toks_tok_end by (rewrite E; easy). easy.
-    + rewrite IH by (rewrite E, app_length in Hf; cbn in Hf; lia).
-      rewrite append_vec; cbn [snd]. rewrite E, toks_tok_delim by easy. apply app_argv_cons.
+      rewrite app_nil_r in E. rewrite IH by (rewrite Es in Hf; cbn in Hf |- *; lia).
+      cbn [toks app_argv].
+      rewrite append_vec; cbn [snd]. rewrite toks'_tok_end by (rewrite E; easy). easy.
+    + rewrite Hrest by (rewrite E, app_length in Hf; cbn in Hf; lia).
+      rewrite append_vec; cbn [snd]. rewrite E, toks'_tok_delim by easy. apply app_argv_cons.
 Qed.
 
 Lemma split_inter_spec : forall s d ie, split_inter s d ie = app_argv None (toks ie d s).
@@ -475,9 +478,11 @@ Proof. now intros [|x l]. Qed.
 
 (* what the two functions return, for every string *)
 Theorem split_spec : forall s d, vec_of (argv_split s d) = filter nonempty (fields d s).
-Proof. intros; unfold argv_split. now rewrite split_inter_spec, vec_of_app_argv_none. Qed.
+Proof.
+  intros; unfold argv_split. rewrite split_inter_spec, vec_of_app_argv_none. now destruct s.
+Qed.
 Theorem split_with_empty_spec : forall s d,
-  vec_of (argv_split_with_empty s d) = strip_last_empty (fields d s).
+  vec_of (argv_split_with_empty s d) = match s with [] => [] | _ :: _ => fields d s end.
 Proof. intros; unfold argv_split_with_empty. now rewrite split_inter_spec, vec_of_app_argv_none. Qed.
 (* NULL is returned exactly when there is no token *)
 Theorem split_null : forall s d ie, split_inter s d ie = None <-> toks ie d s = [].
@@ -552,29 +557,12 @@ Proof.
   destruct (@exists_last _ (c :: s)) as (t & x & E); [easy|]. now exists t, x.
 Qed.
 
+(* no field is dropped: joining gives the string back, for every string *)
 Theorem join_split_with_empty : forall s d,
-  argv_join (argv_split_with_empty s d) d = intercalate d (strip_last_empty (fields d s)).
-Proof. intros. now rewrite join_spec, split_with_empty_spec. Qed.
-
-(* exactly one trailing delimiter is lost, nothing else *)
-Theorem join_split_with_empty_exact : forall s d,
-  (forall t, s = t ++ [d] -> argv_join (argv_split_with_empty s d) d = t) /\
-  (~ ends_with d s -> argv_join (argv_split_with_empty s d) d = s).
+  argv_join (argv_split_with_empty s d) d = s.
 Proof.
-  intros s d. rewrite join_split_with_empty. split.
-  - intros t ->. rewrite fields_snoc_delim, strip_snoc_empty. apply intercalate_fields.
-  - intro Hne. destruct (str_cases s) as [->|(t & c & ->)]; [easy|].
-    destruct (ascii_dec c d) as [->|Hc]; [elim Hne; now exists t|].
-    destruct (fields_snoc_other d t c Hc) as (l & f & E).
-    rewrite <- (intercalate_fields d (t ++ [c])) at 2. rewrite E.
-    rewrite strip_snoc_nonempty; [easy | now destruct f].
-Qed.
-Theorem join_split_with_empty_roundtrip_iff : forall s d,
-  argv_join (argv_split_with_empty s d) d = s <-> ~ ends_with d s.
-Proof.
-  intros s d. destruct (join_split_with_empty_exact s d) as [H1 H2]. split; [|easy].
-  intros H [t E]. rewrite (H1 t E) in H. rewrite E in H.
-  apply (f_equal (@length _)) in H. rewrite app_length in H; cbn in H; lia.
+  intros s d. rewrite join_spec, split_with_empty_spec.
+  destruct s as [|c s]; [easy|]. apply intercalate_fields.
 Qed.
 
 (* ------------------------------------------------------------------------ *)
@@ -594,11 +582,15 @@ Proof.
 Qed.
 Theorem split_with_empty_join_iff : forall v d,
   Forall (fun t => ~ In d t) v ->
-  (vec_of (argv_split_with_empty (argv_join (Some v) d) d) = v <-> (v = [] \/ last v [] <> [])).
+  (vec_of (argv_split_with_empty (argv_join (Some v) d) d) = v <-> v <> [[]]).
 Proof.
   intros v d H. rewrite split_with_empty_spec, join_spec. cbn [vec_of].
-  destruct v as [|x v]; [split; [now left | easy]|].
-  rewrite fields_intercalate by easy. apply strip_fixed.
+  destruct v as [|x v]; [split; easy|].
+  destruct (intercalate d (x :: v)) as [|c s] eqn:Ei.
+  - assert (Hf : fields d (intercalate d (x :: v)) = x :: v) by now apply fields_intercalate.
+    rewrite Ei in Hf. cbn [fields] in Hf. split; intro Hc; [easy|]. elim Hc. now rewrite <- Hf.
+  - rewrite <- Ei. rewrite fields_intercalate by easy. split; [|easy].
+    intros _ Hc. rewrite Hc in Ei. cbn in Ei. easy.
 Qed.
 Theorem split_with_empty_join : forall v d,
   Forall (fun t => t <> [] /\ ~ In d t) v ->
@@ -606,9 +598,7 @@ Theorem split_with_empty_join : forall v d,
 Proof.
   intros v d H. apply split_with_empty_join_iff.
   - eapply Forall_impl; [|exact H]. now intros t [_ Ht].
-  - destruct v as [|x v]; [now left|]. right.
-    destruct (@exists_last _ (x :: v)) as (l & y & E); [easy|]. rewrite E in *.
-    rewrite last_last. apply Forall_app in H as [_ H]. inv H. easy.
+  - intros ->. inv H. now destruct H2.
 Qed.
 (* the result of splitting is NULL (not an empty vector) when v is empty *)
 Theorem split_join_null : forall d ie, split_inter (argv_join (Some []) d) d ie = None.
@@ -828,18 +818,10 @@ Lemma P_split_join_modulo_empty_fields : forall s d,
   argv_join (argv_split s d) d = intercalate d (filter nonempty (fields d s)).
 Proof. intros s d. split; [apply intercalate_fields | split; [apply split_spec | apply join_split]]. Qed.
 
-Lemma P_split_with_empty_join_refuted :
-  exists s d, argv_join (argv_split_with_empty s d) d <> s.
-Proof. exists ["a"; ","]%char, ","%char. vm_compute. discriminate. Qed.
-
-Lemma P_split_with_empty_join_exact : forall s d,
-  vec_of (argv_split_with_empty s d) = strip_last_empty (fields d s) /\
-  (forall t, s = t ++ [d] -> argv_join (argv_split_with_empty s d) d = t) /\
-  (argv_join (argv_split_with_empty s d) d = s <-> ~ ends_with d s).
-Proof.
-  intros s d. split; [apply split_with_empty_spec|].
-  split; [apply join_split_with_empty_exact | apply join_split_with_empty_roundtrip_iff].
-Qed.
+Lemma P_split_with_empty_join : forall s d,
+  vec_of (argv_split_with_empty s d) = match s with [] => [] | _ :: _ => fields d s end /\
+  argv_join (argv_split_with_empty s d) d = s.
+Proof. intros s d. split; [apply split_with_empty_spec | apply join_split_with_empty]. Qed.
 
 Lemma P_split_after_join : forall v d,
   Forall (fun t => t <> [] /\ ~ In d t) v ->
